@@ -162,7 +162,7 @@ def num_cases(seed, n):
         elif k == 8:
             src = f'l = [a, b]; l[0] {r.choice(["+=", "-=", "*=", "/="])} n; l'
         elif k == 10:
-            src = r.choice(['a * b', 'a / b', '-a', 'abs(a)', 'a < b', 'a == b', 'a ** 2', 'a * b * n', 'a * 10', 'a / 1000', 'round(a)', 'a *= b; a'])
+            src = r.choice(['a * b', 'a / b', '-a', 'abs(a)', 'a < b', 'a == b', 'a ** 2', 'a * b * n', 'a * 10', 'a / 1000', 'round(a, 2)', 'a *= b; a'])
         else:
             src = num_expr(r, 0, ('a', 'b', 'n'))
         if r.random() < 0.03:
